@@ -653,13 +653,32 @@ func (w *World) fieldFootprint(field string) (readers, writers map[string]bool) 
 					continue
 				}
 				u := types.Unalias(st).Underlying().(*types.Struct)
-				if u.Field(fa.Field).Name() != fname {
+				if fname != "*" && u.Field(fa.Field).Name() != fname {
 					continue
 				}
 				isStore := false
 				for _, r := range *fa.Referrers() {
 					if s, ok := r.(*ssa.Store); ok && s.Addr == fa {
 						isStore = true
+					}
+					// an element of a slice / array / map held in the field is assigned: field[i] = v
+					if ld, ok := r.(*ssa.UnOp); ok && ld.Op == token.MUL && ld.Referrers() != nil {
+						for _, r2 := range *ld.Referrers() {
+							switch x := r2.(type) {
+							case *ssa.IndexAddr:
+								if x.X == ssa.Value(ld) && x.Referrers() != nil {
+									for _, r3 := range *x.Referrers() {
+										if s, ok := r3.(*ssa.Store); ok && s.Addr == ssa.Value(x) {
+											isStore = true
+										}
+									}
+								}
+							case *ssa.MapUpdate:
+								if x.Map == ssa.Value(ld) {
+									isStore = true
+								}
+							}
+						}
 					}
 				}
 				if isStore {
